@@ -173,6 +173,10 @@ def validate_traces(trace_module, events, workdir, chunk=20000, cfg=None):
             cmd = r["cmd"]
             if tlc_failed(r) or r["distinct"] != len(ch) + 1:
                 sys.stderr.write(r["out"][-3000:])
+                k = r["distinct"] - 1 if 0 < r["distinct"] <= len(ch) else 0
+                sys.stderr.write("\nevent TLC stopped at: " + json.dumps(ch[k], default=str)[:3000] + "\n")
+                i = r["out"].find("Error:")
+                sys.stderr.write(r["out"][i:i + 600] + "\n")
                 raise MachineryError("trace validation did not consume %s (%d events, %d states)" %
                                      (fn, len(ch), r["distinct"]))
             verdicts.update(parse_verdicts(r["out"]))
@@ -288,7 +292,9 @@ class Result:
                 path = os.path.join(REPLAYS, "%s-%s.json" % (self.prop, h))
                 with open(path, "w") as f:
                     json.dump(dict(property=self.prop, clause=clause, event=evn), f, indent=1, default=str)
-                print("VIOLATION property=%s replay=%s clause=%s" % (self.prop, path, clause))
+                n = sum(1 for c, _ in self.violations if c == clause)
+                print("DETAIL property=%s clause=%s events=%d" % (self.prop, clause, n))
+                print("VIOLATION property=%s replay=%s" % (self.prop, path))
                 first = first or path
             print("%s: %d violating events, %d distinct clauses; evaluations=%d traces=%d wall=%.1fs" %
                   (self.prop, len(self.violations), len(seen), self.evaluations, self.traces, wall))
